@@ -310,21 +310,24 @@ theorem nestedReplace_skip (s : Sess) (insId newText : Str) (comment : Option St
     repeat' split at h
     all_goals simp at h
 
+theorem chooseAnchor_frame (s : Sess) (spans : List OSpan) (start : Nat) (bl : Bool) :
+    (chooseAnchor s spans start bl).1.frame = s.frame := by
+  unfold chooseAnchor
+  simp only
+  repeat' first
+    | exact insertionAnchor_frame s spans start
+    | exact insertionPoint_frame s spans start
+    | split
+
 theorem applyInsertion_skip_frame (s : Sess) (spans : List OSpan) (start : Nat) (newText : Str) (comment : Option Str)
     (h : (applyInsertion s spans start newText comment).2 = false) :
     (applyInsertion s spans start newText comment).1.frame = s.frame := by
   unfold applyInsertion at h ⊢
   simp only at h ⊢
-  have hr1 : ∀ (c : Bool), (if c then
-      ((insertionAnchor s spans start).1, (insertionAnchor s spans start).2, false)
-      else insertionPoint s spans start).1.frame = s.frame := by
-    intro c; cases c
-    · exact insertionPoint_frame s spans start
-    · exact insertionAnchor_frame s spans start
   split
-  · exact hr1 _
+  · exact chooseAnchor_frame _ _ _ _
   · split
-    · exact hr1 _
+    · exact chooseAnchor_frame _ _ _ _
     · rename_i h1 _ _ h2
       simp only [h1, h2] at h
       cases h
